@@ -57,6 +57,15 @@ def run(model, res, tier):
     res.rule('R11', 'a text literal is the text that was written: the formula is not transformed as a whole (case mapping, translate, replace, regex substitution, normalisation) in front of the lexer (shared with C05.R9)')
     from . import c05 as _c05
     H.borrow(res, 'R11', 'formula text', lambda tmp: _c05.literal_text_rule(model, tmp, c, 'R11', 'a text argument written as a literal'))
+    res.rule('R12', 'the operands of & are joined as the texts they are: text verbatim (numeric-looking text keeps its spelling), numbers as '
+             'str() of the number (shared with C06.R7) - LEN(a&b) = LEN(a)+LEN(b) depends on it')
+
+    def _amp(tmp):
+        from . import c06
+        from .. import roles as _roles
+        g_ = c.grammar
+        c06._concat(model, tmp, c, g_, _roles.binary_actions(g_), H.date_opaque(model))
+    H.borrow(res, 'R12', 'operands of &', _amp)
     purity.check_region(res, c, 'R7', None, region, 'a text function')
     purity.check_memo(res, c, 'R7', region, 'a text function')
 
